@@ -1330,13 +1330,16 @@ def main(R):
               "None, list, dict, tuple, bytes, user objects; identical object or equal copy per position), entry built as NonTensorData, "
               "nested torch.stack / lazy_stack / NonTensorStack along every dim, or _from_list; 1..8 operations: C03 indices with at most one "
               "advanced index, C02 shape ops, stack/cat/lazy_stack/unbind, indexed writes (tensordict / NonTensorData values, broadcast), "
-              "write-back of the same values, update/update_/copy_, clone, maybe_to_stack, to_dict, pickle, memmap; distinct by the whole "
+              "write-back of the same values, update/update_/copy_, clone, maybe_to_stack, to_dict, pickle, memmap; a stream with identity-equal "
+              "user objects (oracle only); distinct by the whole "
               "descriptor; non-trivial = at least one operation was accepted by torch on the proxy and the batch is not empty")
     R.assumptions = ["which positions an operation selects / combines is decided by torch on an integer tensor of position ids (pure torch, no tensordict)",
                      "payload equality is Python ==; the pool has no two distinct payloads that compare equal (no 1 / True / 1.0)",
                      "the histories avoid (stream 'clean') or deliberately enter (stream 'raw') the input regions of the recorded findings"]
     R.trusted = ["torch indexing / shape ops / stack / cat / setitem on an int64 tensor (the object-array proxy)",
-                 "Spec/C16_ObjArray.v (index -> source position map) re-validated against torch on every generated index of this run"]
+                 "Spec/C16_ObjArray.v (index -> source position map) re-validated against torch on every generated index of this run",
+                 "Model/C03_Index.gbs (+ Proofs/C03_IndexP.gbs_eq_torch_shape) reused for the batch size of an indexed NonTensorData",
+                 "entry-level probes call tensordict.utils._set_item and NonTensorStack.from_nontensordata directly (internal API)"]
     R.step_prove()
     ok = R.step_driver()
     q = R.quick
@@ -1486,8 +1489,8 @@ def spec_lines_for(t):
     n = int(np.prod(bs)) if bs else 1
     src = torch.arange(n, dtype=torch.int64).reshape(bs)
     want = call(lambda: src[py_index(op[1], op[2])])
-    if want[0] != "ok":
-        return []
+    if want[0] != "ok" or want[1].numel() == 0:
+        return []      # (torch checks the values of an integer index lazily: not at all when nothing is selected)
     return [("spec", sx([Sym("src-all"), idx_sx(descs), list(bs)]), [list(want[1].shape), want[1].reshape(-1).tolist(), list(bs)], "spec")]
 
 
